@@ -1,10 +1,12 @@
 #!/usr/bin/env python3
-"""Collects verified seeded defects into /verif/seeded/<id>/ and writes seeded/README.md."""
-import json, os, re, shutil, sys
-# (round label, directory the sub-agents wrote to, directory tools/seedverify.sh wrote to)
-rounds = [("r1", "/tmp/seeds", "/tmp/svfinal/r1"), ("r2", "/tmp/seeds2", "/tmp/svfinal/r2"), ("r3", "/tmp/seeds3", "/tmp/svfinal/r3"),
-          ("r4", "/tmp/seeds4", "/tmp/svfinal/r4"), ("r5", "/tmp/seeds5", "/tmp/svfinal/r5"), ("r6", "/tmp/seeds6", "/tmp/svfinal/r6")]
-rows = []
+"""Collects verified seeded defects into /verif/seeded/<id>/ and writes seeded/README.md.
+usage: collectseeds.py [<round label> <dir the sub-agents wrote to> <dir tools/seedverify.sh wrote to>]...
+Without arguments only README.md is regenerated from seeded/*/meta.json (the scratch
+directories of earlier rounds are gone; /verif/seeded is the only record, so commit it
+straight after every collection)."""
+import json, os, re, shutil, sys, glob
+a = sys.argv[1:]
+rounds = [(a[i], a[i + 1], a[i + 2]) for i in range(0, len(a) - 2, 3)]
 for rn, sdir, odir in rounds:
     for i in range(1, 21):
         for x in "ab":
@@ -57,7 +59,12 @@ for rn, sdir, odir in rounds:
                 "violation_keys_reported": keys,
             }
             json.dump(m, open(dst + "/meta.json", "w"), indent=1)
-            rows.append((name, pid, confirmed, caught, (meta.get("summary", "") or "")[:150].replace("|", "/").replace("\n", " "), keys[:1]))
+rows = []
+for mf in sorted(glob.glob("/verif/seeded/*/meta.json")):
+    m = json.load(open(mf))
+    name = os.path.basename(os.path.dirname(mf))
+    rows.append((name, m.get("property"), bool(m.get("confirmed")), bool(m.get("caught_by_check")),
+                 (m.get("summary", "") or "")[:150].replace("|", "/").replace("\n", " "), (m.get("violation_keys_reported") or [])[:1]))
 with open("/verif/seeded/README.md", "w") as f:
     f.write("# Seeded defects\n\nChanges to awalterschulze/goderive written by independent sub-agents that saw only one property's text (never /verif), each verified by `tools/seedverify.sh` in a scratch worktree of /repo's HEAD: the patch applies, the generator builds, the pinned test suite gives the same result as without it, the agent's demonstration fails with the change and passes without it. `caught` = the property's quick check, pointed at the patched tree, exits 1 with a VIOLATION line.\n\n")
     f.write("| seed | property | confirmed | caught by its check | change | first violation key |\n|---|---|---|---|---|---|\n")
